@@ -215,6 +215,23 @@ fn gen(t: &mut Tape) -> Case {
         4 | 5 => {
             // enum variant payload field: `~` is the binding
             let named = pos == 5;
+            if !named && t.chance(1, 3) {
+                // tuple payload, a ghost field first, the marked field renamed to index 0: for From kinds `~` is the binding of the
+                // counterpart's position 0 (named after this variant's first field that is not a ghost: f1), for Into kinds the
+                // field's own binding (f2)
+                labels.push("position:variant-field+tuple+index-rename+ghost-first".into());
+                let attrs = vec![Attr::bare(Instr::Member(MemberInstr { name: mname.clone(), ded: None, member: Some("0".into()), action: Some(braced.clone()) }))];
+                for k in &mkinds {
+                    if *k == OIE || *k == RIE {
+                        continue;
+                    }
+                    let from = *k == FO || *k == FR;
+                    expects.push(Expect { kind: *k, fallible: mfall, at: src_obj(*k).into(), tilde: Some(if from { "f1".into() } else { "f2".into() }) });
+                }
+                let ghost = vec![Attr::bare(Instr::Ghost { name: "ghost".into(), ded: None, action: Some("{ 0 }".into()) })];
+                let fields = vec![field(None, ghost), field(None, vec![]), field(None, attrs)];
+                return Case { item: Item { attrs: trait_attrs(true, None), name: "S".into(), generics: String::new(), where_clause: String::new(), body: Body::Enum(vec![VariantDef { attrs: vec![], name: "U".into(), shape: Shape::Unit, fields: vec![] }, VariantDef { attrs: vec![], name: "V".into(), shape: Shape::Tuple, fields }]) }, user, expects, labels, stats: st };
+            }
             let rename = named && t.coin();
             labels.push(format!("position:variant-field{}{}", if named { "+named" } else { "+tuple" }, if rename { "+rename" } else { "" }));
             let attrs = vec![Attr::bare(Instr::Member(MemberInstr { name: mname.clone(), ded: None, member: if rename { Some("mm".into()) } else { None }, action: Some(braced.clone()) }))];
@@ -321,7 +338,13 @@ fn gen(t: &mut Tape) -> Case {
                 for k in ks {
                     expects.push(Expect { kind: k, fallible: f, at: src_obj(k).into(), tilde: None });
                 }
-                Item { attrs: trait_attrs(false, Some((target, TParam::Update(braced.clone())))), name: "S".into(), generics: String::new(), where_clause: String::new(), body: Body::Struct(Shape::Named, vec![field(Some("a"), vec![])]) }
+                // with a parameterless #[parent] member the Into kinds take ..update as the start value of the step-by-step body
+                let mut fields = vec![field(Some("a"), vec![])];
+                if t.chance(1, 3) {
+                    labels.push("position:update+bare-parent".into());
+                    fields.push(FieldDef { attrs: vec![Attr::bare(Instr::Parent { ded: None, fields: None })], name: Some("p".into()), ty: "P".into() });
+                }
+                Item { attrs: trait_attrs(false, Some((target, TParam::Update(braced.clone())))), name: "S".into(), generics: String::new(), where_clause: String::new(), body: Body::Struct(Shape::Named, fields) }
             } else if t.chance(1, 3) {
                 // `_ => expr` default case evaluated by From kinds: enum with a type-level #[ghosts(..)]
                 labels.push("position:default-case-from".into());
